@@ -425,13 +425,37 @@ impl Group for Repr {
         "c09.repr"
     }
     fn rule(&self) -> &'static str {
-        "a real loopback server, a cached and an uncached handler with a compressible 600-byte text body; one connection: 0-1 plain GETs with `accept-encoding: <gzip|br|zstd|none>`, a ranged GET with the same accept-encoding (cold or warm), a GET without Range (the representation), the ranged GET once more; oracle from the statement: both ranged replies are the slice / 416 / full reply that the statement prescribes for the *representation the GET without Range received* (same content-encoding, content-range total = its length); ranges around the compressed and the identity length; non-trivial = an encoding was negotiated"
+        "a real loopback server, a cached and an uncached handler with a compressible 600-byte text body; one connection: 0-1 plain GETs with `accept-encoding: <gzip|br|zstd|none>`, a ranged GET with the same accept-encoding (cold or warm), a GET without Range (the representation), the ranged GET once more; oracle from the statement: both ranged replies are the slice / 416 / full reply that the statement prescribes for the *representation the GET without Range received* (same content-encoding, content-range total = its length); ranges around the compressed and the identity length; the first ranged reply is also compared with the range model applied to the observed representation; non-trivial = an encoding was negotiated"
     }
     fn parallel(&self) -> bool {
         false
     }
+    /// the range model applied to the representation that was observed for the request without Range
+    fn driver_line_with(&self, line: &str, impl_out: &str) -> String {
+        let p: Vec<&str> = line.split(' ').collect();
+        let full = impl_out.split(" | ").nth(1).and_then(|f| f.split(' ').find_map(|t| t.strip_prefix("body="))).unwrap_or("-");
+        format!("c09.reply {full} {}", hex(format!("bytes={}-{}", p[4], p[5]).as_bytes()))
+    }
     fn compare_with_model(&self, _line: &str) -> bool {
-        false
+        true
+    }
+    /// both sides as `status body cr` of the first ranged reply
+    fn canon(&self, out: &str) -> String {
+        if let Some(first) = out.strip_prefix("first: ") {
+            let first = first.split(" | ").next().unwrap_or("");
+            let field = |k: &str| first.split(' ').find_map(|t| t.strip_prefix(k)).unwrap_or("").to_owned();
+            let status = first.split(' ').next().unwrap_or("");
+            if status == "416" { return "416".into(); }
+            return format!("{status} body={} cr={}", field("body="), field("cr=").replace('_', " "));
+        }
+        // the model's line: `206 body=<hex> cr=<hex of the header> ar=…`
+        let mut it = out.split(' ');
+        let status = it.next().unwrap_or("");
+        if status == "416" { return "416".into(); }
+        let field = |k: &str| out.split(' ').find_map(|t| t.strip_prefix(k)).unwrap_or("").to_owned();
+        let cr = field("cr=");
+        let cr = if cr == "none" { cr } else { unhex(&cr).map(|b| String::from_utf8_lossy(&b).into_owned()).unwrap_or(cr) };
+        format!("{status} body={} cr={cr}", field("body="))
     }
     fn generate(&self, ctx: &Ctx, rng: &mut Rng) -> Vec<String> {
         let mut v = Vec::new();
